@@ -386,7 +386,7 @@ let register (reg : string -> (string list -> string) -> unit) =
         | "num" -> CssDim.number_token keep false b
         | "int" -> CssDim.number_token keep true b
         | "pct" -> CssDim.percentage_token keep b
-        | "dim" | "dimunk" -> CssDim.dimension_token keep optzero false d b
+        | "dim" -> CssDim.dimension_token keep optzero false d b
         | _ -> CssDim.dimension_token keep optzero true d b)
     | _ -> "BADARGS");
   reg "csshex" (function [v] -> hexe (CssColor.hex_color_minify Tables_gen.css_shorten_color_hex (hexd v)) | _ -> "BADARGS");
